@@ -32,6 +32,12 @@ var fmtArgLists = [][]string{
 	{"(list 1 2)", "(list 3)"},
 	{"1000000000000000000", "18446744073709551616"},
 	{"1.5d0", "'foo"},
+	{`""`, `""`},
+	{`"abcdefgh"`, "(code-char 0)"},
+	{"(coerce (list (code-char 233) (code-char 120171)) 'string)", "(code-char 233)"},
+	{"(vector)", "(list)"},
+	{"-9223372036854775808", "-18446744073709551617"},
+	{"1/3", "#C(1 2)"},
 }
 
 const hugeArgList = 6
